@@ -121,6 +121,7 @@ int main(int argc, char** argv) {
             if (h4 != gc4 || h3 != gc3) reuse_same = false;
         }
         o.key("reuse_same").b(reuse_same);
+        o.key("exact").b(!c.has("exact") || c["exact"].boolean());
         o.end_obj();
         fprintf(fo, "%s\n", o.text().c_str());
     }
